@@ -195,7 +195,7 @@ end C02
 namespace C13
 
 structure St where
-  polled : Bool := false        -- an abort poll since the last op answer / start
+  polled : Bool := false        -- an abort poll since the last op / sleeper answer / start
   aborted : Bool := false       -- a poll answered True, or the operation raised AbortRetryError
   cancelled : Option Exn := none   -- op / sleeper raised a cancellation-type exception
   bad : Bool := false
@@ -218,7 +218,9 @@ def step (cfg : Cfg) (s : St) (x : Req × Ans) : St :=
       else s
     | _ => s
   | .sleeper .., a =>
-    let s := { s with bad := s.bad || s.aborted || (cfg.abortIf && !s.polled) }
+    -- a poll is due again after the sleep: "before every attempt" includes the attempt that
+    -- follows a backoff sleep
+    let s := { s with bad := s.bad || s.aborted || (cfg.abortIf && !s.polled), polled := false }
     match a with
     | .raise e _ => if e.isCancelKind then { s with cancelled := some e } else s
     | _ => s
@@ -239,7 +241,9 @@ def verdict (t : Trace) (s : St) (r : Res) : Bool :=
   && (if s.aborted && s.cancelled.isNone then
         -- the run ends aborted, unless an error of some other callback intervened
         match r with
-        | .raised e => e.isAbort || Mon.raisedBy (fun r => !Mon.isOp r) t e
+        -- (`.stuck` is model-only — an ill-shaped answer stream; it never occurs in a log of the
+        --  implementation)
+        | .raised e => e.isAbort || e == .stuck || Mon.raisedBy (fun r => !Mon.isOp r) t e
         | .outcome o _ => o.stop == some .aborted
         | .ret _ => false
       else true)
@@ -673,70 +677,98 @@ end C11
 
 namespace C09
 
+/-- What the three breaker monitors remember of one call's log. -/
 structure St where
   admitted : Option Bool := none      -- the answer of breaker.allow()
+  admitState : Option CState := none  -- … and the state it reported
   records : List Req := []            -- record_* calls after admission
   preRecords : Nat := 0               -- record_* calls before/without admission
+  early : Nat := 0                    -- any other request made before the breaker was asked
   opsAfterReject : Nat := 0
   otherAfterReject : Nat := 0
+  -- the LAST exchange with the classifier: (exception ref, class) if it answered with a class …
+  lastClass : Option (String × EClass) := none
+  -- … or what it raised, if it raised
+  clsRaised : Option Exn := none
 
-def step (s : St) (x : Req × Ans) : St :=
+/-- admission, records, and what was requested before admission / after a rejection -/
+def count (s : St) (x : Req × Ans) : St :=
   match x.1, x.2 with
-  | .breakerAllow, .admit a _ _ => { s with admitted := some a }
+  | .breakerAllow, .admit a st _ => { s with admitted := some a, admitState := some st }
   | r, _ =>
     if Mon.isRecord r then
       (if s.admitted == some true then { s with records := s.records ++ [r] }
        else { s with preRecords := s.preRecords + 1 })
-    else if s.admitted == some false then
-      (match r with
-       | .metric .. | .log .. => s       -- the rejection event itself
-       | .op _ => { s with opsAfterReject := s.opsAfterReject + 1 }
-       | _ => { s with otherAfterReject := s.otherAfterReject + 1 })
-    else s
+    else match s.admitted with
+      | none => { s with early := s.early + 1 }
+      | some true => s
+      | some false =>
+        (match r with
+         | .metric .. | .log .. => s       -- the rejection event itself
+         | .op _ => { s with opsAfterReject := s.opsAfterReject + 1 }
+         | _ => { s with otherAfterReject := s.otherAfterReject + 1 })
+
+/-- the last exchange with the classifier -/
+def noteClassifier (s : St) (x : Req × Ans) : St :=
+  match x.1, x.2 with
+  | .classify ref, .klass c _ => { s with lastClass := some (ref, c.klass), clsRaised := none }
+  | .classify _, .raise e _ => { s with lastClass := none, clsRaised := some e }
+  | .classify _, _ => { s with lastClass := none, clsRaised := none }
+  | _, _ => s
+
+def step (s : St) (x : Req × Ans) : St := noteClassifier (count s x) x
 
 def run (t : Trace) : St := t.foldl step {}
 
-/-- the class of the final failure as the breaker should hear it -/
-def finalClass (cfg : Cfg) (t : Trace) (r : Res) : Option EClass :=
-  match r with
-  | .outcome o _ => some (o.lastClass.getD .unknown)
-  | .raised (.libExhausted f) => some (f.lastClass.getD .unknown)
-  | .raised (.exhausted _ k) => some (k.getD .unknown)
-  | .raised e =>
-    if cfg.hasRetry then
-      -- the classifier's verdict on that exception (last classify answer for it)
-      (t.reverse.findSome? fun x => match x.1, x.2 with
-        | .classify ref, .klass c _ => if ref == e.ref then some c.klass else none
-        | _, _ => none)
-    else some (Policy.defaultClass e)
-  | .ret _ => none
+/-- The record the final outcome dictates (`none` = the property does not determine the kind).
 
-def expected (cfg : Cfg) (t : Trace) (r : Res) : Option Req :=
+* returned a value / ok outcome ⇒ success;
+* ABORTED outcome, AbortRetryError, cancellation kinds, a nested CircuitOpenError ⇒ cancel;
+* otherwise failure with the class of the final failure: `outcome.last_class` (execute);
+  `RetryExhaustedError.last_class`; the class the classifier gave the raised exception when the
+  policy asked it for the breaker (the last classifier exchange), or `default_classifier`'s without a
+  retry component; UNKNOWN when absent.
+* If the exception the call ends with was raised BY THE CLASSIFIER in its last exchange, the final
+  failure has no class (the policy's own request to classify it for the breaker failed, or the
+  classifier raised a RetryExhaustedError inside the loop): the kind is not determined. -/
+def expected (cfg : Cfg) (s : St) (r : Res) : Option Req :=
   match r with
   | .ret _ => some .breakerSuccess
   | .outcome o _ =>
     if o.ok then some .breakerSuccess
     else if o.stop == some .aborted then some .breakerCancel
-    else (finalClass cfg t r).map Req.breakerFailure
+    else some (.breakerFailure (o.lastClass.getD .unknown))
   | .raised e =>
     if e.isCancelKind || e.isAbort || e.isCircuitOpen || e == .stuck then some .breakerCancel
-    else (finalClass cfg t r).map Req.breakerFailure
+    else if cfg.hasRetry && s.clsRaised == some e then none
+    else if e.isExhausted then some (.breakerFailure (e.exhaustedClass.getD .unknown))
+    else if cfg.hasRetry then
+      (match s.lastClass with
+       | some (ref, k) => if ref == e.ref then some (.breakerFailure k) else none
+       | none => none)
+    else some (.breakerFailure (Policy.defaultClass e))
 
 end C09
 
 namespace C07
 
-/-- a rejected call invokes nothing and records nothing -/
+/-- A call the breaker rejects invokes nothing — no request before the breaker is asked, and after
+    the rejection no operation, attempt hook, abort poll, classifier, strategy, sleeper (only the
+    rejection event on the metric/log hooks) — records nothing with the breaker, and yields
+    CircuitOpenError carrying the breaker's state (call) or a not-ok outcome with zero attempts
+    (execute).  (If the metric/log hook answers the rejection event by raising a BaseException-only
+    kind, that propagates instead.) -/
 def ok : Monitor := fun cfg e t r =>
   if e.isPolicy && cfg.breaker.isSome then
     let s := C09.run t
     match s.admitted with
     | some false =>
-      s.opsAfterReject == 0 && s.otherAfterReject == 0 && s.records.isEmpty && s.preRecords == 0
+      s.early == 0 && s.opsAfterReject == 0 && s.otherAfterReject == 0
+      && s.records.isEmpty && s.preRecords == 0
       && (match r with
-          | .raised (.libCircuitOpen _) => true
-          | .outcome o _ => !o.ok && o.attempts == 0 && o.lastExc == some "libCircuitOpen"
-          | .raised e => Mon.raisedBy (fun _ => true) t e    -- a hook raised a BaseException
+          | .raised (.libCircuitOpen st) => !e.isExecute && s.admitState == some st
+          | .outcome o _ => e.isExecute && !o.ok && o.attempts == 0 && o.lastExc == some "libCircuitOpen"
+          | .raised x => !x.isException && Mon.raisedBy (fun _ => true) t x   -- a hook raised a BaseException
           | _ => false)
     | _ => true
   else true
@@ -745,7 +777,7 @@ end C07
 
 namespace C08
 
-/-- an admitted call has told the breaker that it is over (≥ 1 record) -/
+/-- an admitted call has told the breaker that it is over: ≥ 1 record_* follows the admission -/
 def ok : Monitor := fun cfg e t _ =>
   if e.isPolicy && cfg.breaker.isSome then
     let s := C09.run t
@@ -758,19 +790,20 @@ end C08
 
 namespace C09
 
-/-- exactly one record, of the kind the final outcome dictates -/
+/-- exactly one record after the admission (none before it, none without it), of the kind the
+    final outcome dictates -/
 def ok : Monitor := fun cfg e t r =>
   if e.isPolicy && cfg.breaker.isSome && !Mon.hookBaseFault t && !Mon.attemptHookFault t then
     let s := run t
-    match s.admitted with
-    | some true =>
-      s.preRecords == 0
-      && (match s.records with
-          | [rec] => (match expected cfg t r with
-              | some want => rec == want
-              | none => true)
-          | _ => false)
-    | _ => s.records.isEmpty
+    s.preRecords == 0
+    && (match s.admitted with
+        | some true =>
+          (match s.records with
+           | [rec] => (match expected cfg s r with
+               | some want => rec == want
+               | none => true)
+           | _ => false)
+        | _ => s.records.isEmpty)
   else true
 
 end C09
